@@ -6,6 +6,7 @@ l1 ball projection, and box constraints.
 import numpy as np
 
 from sigpy import backend, thresh, util
+from sigpy import _verif  # noqa: I001
 
 
 class Prox(object):
@@ -47,13 +48,19 @@ class Prox(object):
                 )
 
     def __call__(self, alpha, input):
+        if _verif.ON:
+            _tok = _verif.call_begin("prox", self, input)
         try:
             self._check_shape(input)
             output = self._prox(alpha, input)
             self._check_shape(output)
         except Exception as e:
+            if _verif.ON:
+                _verif.call_abort("prox")
             raise RuntimeError("Exceptions from {}.".format(self)) from e
 
+        if _verif.ON:
+            _verif.call_end("prox", self, _tok, input, output)
         return output
 
     def __repr__(self):
